@@ -1057,6 +1057,25 @@ def rule_py_eof(out):
                   "_fill_buffer does not raise when it obtained fewer than min_count bytes")
 
 
+def rule_py_mixins_have_no_public_methods(out):
+    rid = "PM1"
+    out.rule(rid, "the runtime mixins that come FIRST in the bases of every generated reader/writer class (BinaryProtocolWriter/Reader, NDJsonProtocolWriter/Reader) define "
+                  "no public method: close(), __enter__/__exit__ and the step methods are those of the generated abstract base, which holds the state machine — a public "
+                  "method on the mixin shadows it (method resolution order)", 4)
+    for fname, names in (("_binary.py", ("BinaryProtocolWriter", "BinaryProtocolReader")), ("_ndjson.py", ("NDJsonProtocolWriter", "NDJsonProtocolReader"))):
+        tree, rel = parse_py(out, fname)
+        cl = classes(tree)
+        for cname in names:
+            cls = cl.get(cname)
+            if cls is None:
+                out.undecided(rid, "anchor/" + cname, rel, "class not found")
+                continue
+            public = sorted(m for m in methods(cls) if not m.startswith("_") or m in ("__enter__", "__exit__", "__del__"))
+            out.check(not public, rid, cname + "/public methods", pos(rel, cls), "only the constructor and underscore hooks (_close, _end_stream, ...)",
+                      "%s defines %s: generated classes list the mixin before their abstract base, so this method replaces the generated one — the protocol state check "
+                      "(all steps written / read, streams ended) it performs is bypassed" % (cname, ", ".join(public)))
+
+
 def rule_py_optional_identity(out):
     rid = "PN3"
     out.rule(rid, "_ndjson.py / _binary.py serializers and converters: a parameter annotated Optional[...] is tested for absence with `is None` / `is not None`, never by truthiness "
@@ -1629,6 +1648,7 @@ def rule_py_refill_scope(out):
         out.undecided(rid, "CodedInputStream/buffer reads", rel, "no indexed buffer read found")
 
 RULES = {
+    "C07": [rule_py_mixins_have_no_public_methods],
     "C02": [rule_json_kinds, rule_ndjson_sentinel, rule_union_dispatch, rule_py_optional_identity],
     "C03": [rule_link, rule_py_wire_table, rule_py_capacity, rule_py_no_alias, rule_py_stream_blocks, rule_py_optional_identity],
     "C08": [rule_link],
